@@ -420,7 +420,7 @@ def c17_init_case(fault, mode):
         proc.cleanup(d)
 
 
-def c17_crash_case(build, limit, aspect, zod, lose=None):
+def c17_crash_case(build, limit, aspect, zod, lose=None, revert=False, forced=False):
     """a run that is *killed* in the middle of a write (file-size limit: SIGXFSZ) after an output-changing edit; the next
     plain run must not take the wreck for a finished generation"""
     sb = hist.Sandbox("c17crash", build=build)
@@ -431,14 +431,26 @@ def c17_crash_case(build, limit, aspect, zod, lose=None):
         if lose:
             # the record still matches: the run regenerates only because a generated file is gone
             sb.delete(lose)
+        elif forced:
+            pass            # … or because it is forced
         else:
             sb.edit(aspect)
         if build:
+            if forced:
+                cp = os.path.join(sb.root, "typegen.json")
+                cfgd = json.load(open(cp))
+                cfgd["force"] = True
+                json.dump(cfgd, open(cp, "w"))
             rc, so, se = proc.run_build(sb.root, fsize=limit)
+            if forced:
+                sb.sync()
         else:
-            rc, so, se = proc.run_cli(sb.root, ["generate", "-c", "typegen.json"], fsize=limit)
+            rc, so, se = proc.run_cli(sb.root, ["generate", "-c", "typegen.json"] + (["--force"] if forced else []), fsize=limit)
+        if revert and not lose and not forced:
+            # the edit is undone before the next run: the record of the run *before* the wreck matches the sources again
+            sb.edit(aspect, -1)
         o3 = sb.run()
-        return Case({"what": "crash", "build": build, "limit": limit, "aspect": aspect, "zod": zod, "lose": lose},
+        return Case({"what": "crash", "build": build, "limit": limit, "aspect": aspect, "zod": zod, "lose": lose, "revert": revert, "forced": forced},
                     {"crashed_run_not_remembered": o1["res"] == "ok" and o3["res"] == "ok" and o3.get("current", False)},
                     detail={"crash_rc": rc, "after": {k: o3.get(k) for k in ("res", "action", "stale", "current")}, "stderr": se[-200:]})
     finally:
@@ -452,7 +464,7 @@ def cases_c17(ctx):
         if d.get("what") == "init_fault":
             return [c17_init_case(d["fault"], d["mode"])]
         if d.get("what") == "crash":
-            return [c17_crash_case(d["build"], d["limit"], d["aspect"], d["zod"], d.get("lose"))]
+            return [c17_crash_case(d["build"], d["limit"], d["aspect"], d["zod"], d.get("lose"), d.get("revert", False), d.get("forced", False))]
         return history_cases([(d["steps"], d["build"])], ctx, extra_oracle=fault_oracle)
     hs = []
     for build in (False, True):
@@ -513,6 +525,10 @@ def cases_c17(ctx):
             out.append(c17_crash_case(build, limit, ("cmd_name", "param_type")[k % 2], k % 2 == 0))
             out.append(c17_crash_case(build, limit, "param_type", False, lose=("types.ts", "commands.ts")[k % 2]))
         out.append(c17_crash_case(build, 400, "param_type", False, lose="types.ts"))
+        # the wreck of a run after a change that is then undone (the older record matches again); of a forced run
+        for k, limit in enumerate((-1, -400, -1024, -1500, 400, 1500) if tier == "thorough" else (-400, -1024, 1500)):
+            out.append(c17_crash_case(build, limit, ("output_mode", "param_type", "cmd_name")[k % 3], False, revert=True))
+            out.append(c17_crash_case(build, limit, "param_type", k % 2 == 1, forced=True))
     return out
 
 
@@ -559,8 +575,15 @@ def c16_case(layout, path_kind, mode, seq, seed, tables=None):
         out_rel = {"beside": "out", "nested": "src-tauri/generated", "deep": "web/src/lib/bindings", "up": "../outside_out",
                    "backslash": "ui\\generated", "spaces": "gen out/my bindings", "dotted": "./out2/./bindings/",
                    # directory names that themselves look like the tool's file-name patterns
-                   "genlike": "./src/__generated__", "genprefix": "generated_bindings/ts_generated"}[layout]
+                   "genlike": "./src/__generated__", "genprefix": "generated_bindings/ts_generated",
+                   # `..` after a component that is a symbolic link into another tree: the system resolves the link first
+                   "symup": "web/../generated"}[layout]
         out_abs = os.path.normpath(os.path.join(proj, out_rel))
+        if layout == "symup":
+            os.makedirs(os.path.join(root, "elsewhere", "web_real"), exist_ok=True)
+            os.makedirs(proj, exist_ok=True)
+            os.symlink("../elsewhere/web_real", os.path.join(proj, "web"))
+            out_abs = os.path.realpath(os.path.join(proj, out_rel))
         os.makedirs(out_abs, exist_ok=True)
         # files of the user's *beside* the output directory that carry the names of generated files
         for n in ("events.ts", "types.ts", "commands.ts", "index.ts", ".typecache"):
@@ -656,6 +679,10 @@ def c16_case(layout, path_kind, mode, seq, seed, tables=None):
                     os.makedirs(probe, exist_ok=True)
                 elif os.path.isdir(probe):
                     os.rmdir(probe)
+                continue
+            elif act == "need_conf_block":
+                # the project's tauri.conf.json already carries a typegen block (written by hand, in a layout of its own)
+                proc.write_files(os.path.join(proj, "src-tauri"), {"tauri.conf.json": "{\n    \"identifier\": \"x\",\n    \"plugins\": { \"typegen\": { \"outputPath\": \"%s\", \"validationLibrary\": \"none\" },\n        \"shell\": {\"open\": true} }\n}\n" % out_rel.replace("\\", "\\\\")})
                 continue
             elif act == "need_conf":
                 proc.write_files(os.path.join(proj, "src-tauri"), {"tauri.conf.json": json.dumps({"identifier": "x", "plugins": {}})})
@@ -784,6 +811,9 @@ def cases_c16(ctx):
         ["need_conf", "init_dot", "generate"],
         ["need_conf", "init", "generate", "init_other", "generate"],
         ["need_conf", "init", "init_other"],
+        ["need_conf_block", "init_custom", "generate"],
+        ["need_conf_block", "init_custom", "build"],
+        ["need_conf_block", "generate", "init_custom"],
         ["generate", "edit_index", "touch_source", "generate", "build"],
         ["build", "edit_index", "touch_source", "build"],
         ["cache_dir", "generate", "build"],
@@ -791,13 +821,13 @@ def cases_c16(ctx):
     ]
     jobs = []
     k = 0
-    for layout in ("beside", "nested", "deep", "up", "backslash", "spaces", "dotted", "genlike", "genprefix"):
+    for layout in ("beside", "nested", "deep", "up", "backslash", "spaces", "dotted", "genlike", "genprefix", "symup"):
         for path_kind in ("rel", "abs"):
             for seq in seqs:
                 k += 1
                 if tier != "thorough" and k % 2 == 0 and layout in ("deep",):
                     continue
-                if tier != "thorough" and k % 3 != 0 and layout in ("backslash", "spaces", "dotted", "genlike", "genprefix"):
+                if tier != "thorough" and k % 3 != 0 and layout in ("backslash", "spaces", "dotted", "genlike", "genprefix", "symup"):
                     continue
                 jobs.append((layout, path_kind, ("none", "zod")[k % 2], seq, seed * 10 + k % 3, ctx["tables"]))
     # systematic: every sequence of up to three actions (thorough: all 9 + 81 + 729 on one layout; quick: one in ten,
